@@ -1256,11 +1256,32 @@ func (s *BgpServer) handleRouteRefresh(peer *peer, e *fsmMsg) {
 	}
 	rfList := []bgp.Family{rf}
 	s.getBestFromLocalCallback(peer, rfList, true, true, func(paths []*table.Path, filtered []*table.Path) {
+		// withdraw what was advertised before and the export policy now rejects
+		paths = append(withdrawalsForFiltered(peer, filtered), paths...)
 		if len(paths) > 0 {
 			peer.updateRoutes(paths...)
 			sendfsmOutgoingMsg(peer, paths)
 		}
 	})
+}
+
+// withdrawalsForFiltered returns withdrawals for the paths that the export
+// filters reject for the peer but that have been advertised to it earlier.
+func withdrawalsForFiltered(peer *peer, filtered []*table.Path) []*table.Path {
+	withdrawals := make([]*table.Path, 0, len(filtered))
+	for _, path := range filtered {
+		if path == nil || path.IsEOR() {
+			continue
+		}
+		if !peer.IsFamilyEnabled(path.GetFamily()) {
+			continue
+		}
+		if !peer.hasPathAlreadyBeenSent(path) {
+			continue
+		}
+		withdrawals = append(withdrawals, path.Clone(true))
+	}
+	return withdrawals
 }
 
 // dropAdjRIBIn removes the peer's Adj-RIB-In for the given families and
@@ -2924,20 +2945,7 @@ func (s *BgpServer) softResetOut(addr string, family bgp.Family, deferral bool) 
 		s.getBestFromLocalCallback(peer, families, true, true, func(paths []*table.Path, filtered []*table.Path) {
 			if len(filtered) > 0 && !deferral {
 				// withdraw paths that export policy now rejects
-				withdrawals := make([]*table.Path, 0, len(filtered))
-				for _, path := range filtered {
-					if path == nil || path.IsEOR() {
-						continue
-					}
-					if !peer.IsFamilyEnabled(path.GetFamily()) {
-						continue
-					}
-					if !peer.hasPathAlreadyBeenSent(path) {
-						continue
-					}
-					withdrawals = append(withdrawals, path.Clone(true))
-				}
-				paths = append(withdrawals, paths...)
+				paths = append(withdrawalsForFiltered(peer, filtered), paths...)
 			}
 			if len(paths) > 0 {
 				if deferral {
